@@ -20,17 +20,17 @@ for f in sorted(glob.glob(os.path.join(root, "seeded", "*", "meta.json"))):
         missed += 1
     cell = lambda s: str(s).replace("|", "/").replace("\n", " ")
     rows.append(f"| {sid} | {m['breaks_property']} | {cell(m['summary'])} | {cell(m['needs'])} | {det} | {cell(m.get('note', ''))} |")
-waves = {"1": [0, 0], "2": [0, 0], "3": [0, 0]}
+waves = {"1": [0, 0], "2": [0, 0], "3": [0, 0], "4": [0, 0]}
 for f in sorted(glob.glob(os.path.join(root, "seeded", "*", "meta.json"))):
     m = json.load(open(f))
     sid = os.path.basename(os.path.dirname(f))
-    w = "3" if sid.endswith("y") else ("2" if sid.endswith("x") else "1")
+    w = "4" if sid.endswith("z") else ("3" if sid.endswith("y") else ("2" if sid.endswith("x") else "1"))
     waves[w][1] += 1
     n = m.get("note", "").lower()
     if m.get("detected_by") and not any(k in n for k in ("missed at first", "marginal at first", "first try ended", "undecided")):
         waves[w][0] += 1
 rows.append("")
-rows.append("Caught by the check as it stood when the change arrived: " + "; ".join(f"wave {w} ({'initial checks' if w == '1' else 'ids ending in ' + ('x' if w == '2' else 'y') + ', written against checks already extended'}): {a} of {b}" for w, (a, b) in waves.items() if b) + ".")
+rows.append("Caught by the check as it stood when the change arrived: " + "; ".join(f"wave {w} ({'initial checks' if w == '1' else 'ids ending in ' + {'2': 'x', '3': 'y', '4': 'z'}[w] + ', written against checks already extended'}): {a} of {b}" for w, (a, b) in waves.items() if b) + ".")
 rows.append(f"Totals: {caught + missed} confirmed changes; {caught - later} were caught by the check as it stood when the change arrived, {later} only after the check had been extended (the extension is named in the remark and in `checks/registry.py` EXTENSIONS), {missed} are not caught.")
 text = "\n".join(rows)
 p = os.path.join(root, "DESIGN.md")
